@@ -395,17 +395,20 @@ def main():
         measurements = []
         for sub in meas:
             try:
-                r = subprocess.run([rb, sub], capture_output=True, text=True, timeout=300)
+                r = subprocess.run([rb] + sub.split(), capture_output=True, text=True, timeout=300, env=dict(os.environ, PROBE_PROPERTY=pid))
                 rc, out = r.returncode, (r.stdout + r.stderr)
             except subprocess.TimeoutExpired:
                 rc, out = -9, 'TIMEOUT (hang)'
             measurements.append({'cmd': 'coset-replay ' + sub, 'rc': rc, 'label': 'bounded stand-in on the real crate, not counted as proved', 'output': out[-1500:]})
             if rc != 0:
                 os.makedirs(REPLAYS, exist_ok=True)
-                rpath = os.path.join(REPLAYS, '%s-%s.json' % (pid, sub))
+                rpath = os.path.join(REPLAYS, '%s-%s.json' % (pid, sub.replace(' ', '-')))
                 json.dump({'property': pid, 'failed_obligations': ['replay:' + sub], 'backend': 'native execution of the real crate', 'verifier_output': out[-3000:],
                            'input': {'kind': 'generated by coset-replay ' + sub}, 'replay_cmd': rb + ' ' + sub}, open(rpath, 'w'), indent=1)
                 write_evidence(pid, a.tier, seed, t0, {'obligations': 1, 'discharged': 0, 'checker_cmd': rb + ' ' + sub, 'trusted_base': [], 'bounded_measurements': measurements}, ASSUMPTIONS_COMMON, 1)
+                fl = [l for l in out.splitlines() if 'FAILING-INPUT' in l or 'panicked' in l]
+                if fl:
+                    print('FAILING-INPUT property=%s %s' % (pid, fl[0][:300]))
                 print('VIOLATION property=%s replay=%s' % (pid, rpath))
                 return 1
     # 1. re-extract from the current working tree and run the verifier (result cached on the generated text)
